@@ -396,8 +396,14 @@ def offsets_for(t, tier, rng, sample):
     """Offsets to damage.  thorough: every offset.  quick: every offset of header / section table /
     archive headers / name table, every class boundary +-1 elsewhere, and `sample` seeded others."""
     n = len(t.data)
-    if tier == "thorough":
+    stride = max(1, int(os.environ.get("VERIF_C17_STRIDE", "1")))
+    if tier == "thorough" and stride == 1:
         return list(range(n))
+    if tier == "thorough":
+        # a thinned thorough run (for a loaded machine): header classes fully, the rest every stride-th offset
+        start = rng.randrange(stride)
+        return [i for i in range(n) if is_header_class(t.classes[i][0]) or i % stride == start
+                or i == n - 1 or (t.fmt != "fm" and i > 0 and t.classes[i - 1][:2] != t.classes[i][:2])]
     keep = set()
     if t.fmt == "fm":
         # text: token boundaries are everywhere; take head, tail and a seeded sample per class
@@ -434,8 +440,8 @@ def cases_for(t, tier, rng, sample, max_header_vals=None):
         cs.append(("trunc", o, -1))
     for o in offs:
         vals = subst_values(t.fmt, t.data[o], thorough)
-        if not thorough and not is_header_class(t.classes[o][0]):
-            vals = vals[:2]
+        if not is_header_class(t.classes[o][0]):
+            vals = vals[:3] if thorough else vals[:2]
         for v in vals:
             cs.append(("subst", o, v))
     return cs
